@@ -459,3 +459,23 @@ func patternTerms(t string) []string {
 	}
 	return out
 }
+
+// iteSubterms returns the maximal (ite ...) sub-terms of t that mention no bound variable.
+func iteSubterms(t string) []string {
+	var out []string
+	var walk func(t string)
+	walk = func(t string) {
+		if !strings.HasPrefix(t, "(") {
+			return
+		}
+		if strings.HasPrefix(t, "(ite ") && !strings.Contains(t, "|$") {
+			out = append(out, t)
+			return
+		}
+		for _, a := range topArgs(t) {
+			walk(a)
+		}
+	}
+	walk(t)
+	return out
+}
